@@ -193,6 +193,18 @@ def writable_recipe(rng):
     return g
 
 
+def scribble(g, tag):
+    """a consumer annotating what it has read (in place, every level): must stay private to that result - a later
+    read of any file must not see it (optional members that a file omits are defaulted per read, not shared)"""
+    import nir
+    g.metadata["verif-note"] = tag
+    for n in getattr(g, "nodes", {}).values():
+        if isinstance(n, nir.NIRGraph):
+            scribble(n, tag)
+        else:
+            n.metadata["verif-note"] = tag
+
+
 def run(ctx):
     import nir
     import h5raw
@@ -214,6 +226,12 @@ def run(ctx):
                 d = compare.graph_diff(g1, g2)
                 if d:
                     ctx.violate(case, "re-written artefact does not read back equal", {"site": "artefact", "what": "diff"}, observed=d[:4])
+                scribble(g2, "artefact"); ctx.count("results_annotated_in_place")
+                g3 = nir.read(f)
+                d = compare.graph_diff(g1, g3)
+                if d:
+                    ctx.violate(case, "artefact read again after an earlier result was annotated in place differs",
+                                {"site": "artefact", "what": "leak-between-reads"}, observed=d[:4])
             except Exception as e:  # noqa
                 ctx.violate(case, "shipped artefact is not read / re-written", {"site": "artefact", "what": "raised"},
                             observed=f"{type(e).__name__}: {e}")
@@ -260,6 +278,8 @@ def run(ctx):
                 ctx.violate(case, "a conforming encoding decodes to a different graph",
                             {"site": "read", "what": "diff", "choice": sorted(fixed.items()),
                              "first": d[0].split(":")[-1].strip()[:30]}, observed=d[:4])
+            elif i % 3 == 0:
+                scribble(got, "enc%d" % i); ctx.count("results_annotated_in_place")
         ctx.compare("reader", cases, obs, reqs)
     finally:
         import shutil
